@@ -76,6 +76,12 @@ func c09Gen(seed uint64, run int, tier string) *Case {
 		return c
 	}
 	c.Stratum = "concurrent"
+	// (pipelines of msize-sized replies read a byte or a few at a time take millions of steps: with segmentation
+	// that fine and msize >= 1024 the deep Tag pipelines read 30 bytes instead; seen as 'step budget exhausted')
+	exactMsize := -1
+	if ms >= 1024 && (c.Cfg["seg"] == rt.SegOne || c.Cfg["seg"] == rt.SegTiny) {
+		exactMsize = 30
+	}
 	maxCallers := 16
 	if tier == "thorough" {
 		maxCallers = 64
@@ -106,7 +112,7 @@ func c09Gen(seed uint64, run int, tier string) *Case {
 			case 8:
 				ops = append(ops, Op{K: "readwrong", A: []int64{off | int64(markWrong), 10}})
 			case 9:
-				ops = append(ops, Op{K: "tagreads", A: []int64{int64(len(ops)), int64(r.Pick(2, 3, 4, 5, 6, 6, 20, 24)), int64(r.Pick(1, 8, 30, -1)), int64(r.Intn(3)), int64(r.Intn(4))}}) // up to 24 deep: more than the Tag's own 16-slot completion queue
+				ops = append(ops, Op{K: "tagreads", A: []int64{int64(len(ops)), int64(r.Pick(2, 3, 4, 5, 6, 6, 20, 24)), int64(r.Pick(1, 8, 30, exactMsize)), int64(r.Intn(3)), int64(r.Intn(4))}}) // up to 24 deep: more than the Tag's own 16-slot completion queue
 			}
 		}
 		c.Ops = append(c.Ops, Op{K: "caller", Sub: ops})
